@@ -20,6 +20,8 @@ type Thread struct {
 	blockedOn string
 	cond      func() bool
 	bg        bool // declared background filler: may remain blocked at harness end
+	ctl       bool   // scheduled by vt.Threads (symbolic schedule)
+	atPoint   string // parked at a verifhook.Point
 	name      string
 }
 
@@ -49,6 +51,12 @@ func (in *Interp) spawn(fnv Value, args []Value, cc *ssa.CallCommon) {
 	t := in.newThread()
 	t.forkAll = in.cur.forkAll
 	t.name = fmt.Sprintf("go#%d@%s", t.id, in.where())
+	if in.cur.ctl && in.controller != nil {
+		// goroutines started by a scheduled thread are scheduled too
+		t.ctl = true
+		t.blocked = true
+		t.atPoint = "start"
+	}
 	go in.threadMain(t, func() { in.call(fnv, args, in.ts.True, cc) })
 }
 
@@ -85,6 +93,9 @@ func (in *Interp) threadMain(t *Thread, body func()) {
 			}
 			// pick next
 			next := in.pickRunnable(t)
+			if t.ctl && in.controller != nil {
+				next = in.controller
+			}
 			if next == nil {
 				next = in.threads[0] // main decides (deadlock detection happens in its block loop)
 			}
@@ -115,7 +126,7 @@ func (in *Interp) pickRunnable(self *Thread) *Thread {
 func (in *Interp) yield() {
 	self := in.cur
 	n := len(in.threads)
-	if n <= 1 {
+	if n <= 1 || (self.ctl && in.controller != nil) {
 		return
 	}
 	var next *Thread
@@ -163,6 +174,18 @@ func (in *Interp) switchTo(self, t *Thread) {
 // block suspends the current thread until cond holds.
 func (in *Interp) block(cond func() bool, what string) {
 	self := in.cur
+	if self.ctl && in.controller != nil {
+		// under a symbolic schedule the controller decides who runs next
+		for !cond() {
+			self.blocked = true
+			self.blockedOn = what
+			self.cond = cond
+			in.switchTo(self, in.controller)
+		}
+		self.blocked = false
+		self.cond = nil
+		return
+	}
 	for !cond() {
 		self.blocked = true
 		self.blockedOn = what
